@@ -26,6 +26,17 @@ CLAIMS = {
 NOT_APPLICABLE = {
 }
 
+CLAIMS["C12"] = (
+    "Solver verdict that, for every accepted TimeoutSettings value and for the defaults, every socket constructed by "
+    "socket.rs and by each query entry point has exactly the configured read/write timeouts set before its first I/O, "
+    "TCP connects with the configured connect timeout, sent bytes reach the caller's IPv4/IPv6 address unmodified and "
+    "received datagrams are delivered unmodified up to the requested size. The *code-level* part of the property; "
+    "model checking fits because the quantifier is over setting values and payload bytes.",
+    "Trusted: hook H3 (std::net model: the values handed to set_read_timeout/set_write_timeout/connect_timeout/"
+    "send_to/recv_from are what is observed). NOT claimed: the wall-clock bound, kernel behaviour, real sockets, "
+    "ureq/HTTP timeouts — time and the OS cannot be encoded for the solver.",
+    "DESIGN.md §4 C12")
+
 ALL = ["C%02d" % i for i in range(1, 21)]
 
 DEFAULT_NA = "check not built yet in this revision (work in progress; see DESIGN.md for the plan)"
